@@ -44,7 +44,7 @@ TECHNIQUE = ('fault enumeration under runtime monitoring: every byte-offset '
              'file\'s content, with a logical-step budget for termination')
 MIN_DISTINCT = {'quick': 10000, 'thorough': 150000}
 IMAGES = {'quick': 3, 'thorough': 40}
-FMTS = list(refcamx.FORMATS)   # + bpch: see c18 (added when built)
+FMTS = list(refcamx.FORMATS) + ['bpch']
 BUDGET = 60000
 CHUNKS = 8
 JOBS = {'quick': 12}
